@@ -42,8 +42,10 @@ func Requests(fc uint8, full bool) []spec.Req {
 		}
 	case 5:
 		out = append(out, spec.Req{FC: 5, Addr: 0xAC, Value: spec.CoilOn}, spec.Req{FC: 5, Addr: 0xAD, Value: spec.CoilOff})
+		out = append(out, spec.Req{FC: 5, Addr: 0, Value: spec.CoilOn}) // address 0: bytes 2..3 of the RTU echo are 00 00
 	case 6:
 		out = append(out, spec.Req{FC: 6, Addr: 1, Value: 3})
+		out = append(out, spec.Req{FC: 6, Addr: 0, Value: 0xFFFE}, spec.Req{FC: 6, Addr: 0xFFFF, Value: 0})
 	case 15:
 		out = append(out, spec.Req{FC: 15, Addr: 0x13, Qty: 10, Data: []byte{0xCD, 0x01}})
 		out = append(out, spec.Req{FC: 15, Addr: 0, Qty: 1968, Data: bigPattern(246)}) // the largest request frames: 259 / 255 bytes
